@@ -181,6 +181,15 @@ type EncIn struct {
 	Paras []In
 	Slice bool  // one Encode call with a slice instead of one call per paragraph
 	Calls []int // if set: sizes of consecutive Encode calls; 1 = a struct, -1 = a slice of one, n>1 = a slice of n paragraphs
+	// Refused: per-paragraph mode only; before the call with each of these indexes (len(Paras) = after the last one) the
+	// encoder is given a value it cannot encode. The refused call contributes nothing and changes nothing.
+	Refused []int `json:",omitempty"`
+}
+
+// unencodable has a member of a kind the encoder does not support: Encode returns an error for it.
+type unencodable struct {
+	Name  string
+	Ratio float64
 }
 
 func checkEnc(scen string, in EncIn) []*mc.Violation {
@@ -220,10 +229,27 @@ func checkEnc(scen string, in EncIn) []*mc.Violation {
 		} else if in.Slice {
 			err = enc.Encode(list)
 		} else {
+			refuse := func(i int) bool {
+				for _, k := range in.Refused {
+					if k == i {
+						if e := enc.Encode(&unencodable{"refused", 1.5}); e == nil {
+							err = fmt.Errorf("a struct with a float64 member was encoded without an error")
+							return false
+						}
+					}
+				}
+				return true
+			}
 			for i := range list {
+				if !refuse(i) {
+					break
+				}
 				if err = enc.Encode(&list[i]); err != nil {
 					break
 				}
+			}
+			if err == nil {
+				refuse(len(list))
 			}
 		}
 	}); pn {
@@ -408,12 +434,6 @@ func Run(r *mc.Run) {
 
 	// a struct that embeds the raw paragraph next to typed members, written through the encoder: fields the struct does not
 	// know - including names that differ from a member's key only in letter case - are the reader's and go back unchanged
-	type wrapped struct {
-		control.Paragraph
-		Homepage string
-		Section  string
-		Bugs     string `control:"Bugs"`
-	}
 	wdocs := []string{
 		"Package: x\nHomePage: https://example.org\nsection: Devel\nBUGS: mailto:a@b\n",
 		"Package: x\nHomepage: https://example.org/a\nHOMEPAGE: https://example.org/b\n",
@@ -421,38 +441,23 @@ func Run(r *mc.Run) {
 		"Package: x\nX-Other: y\nbugs: lower\nBugs: proper\n",
 		"Package: x\nSection: devel\nHomePage: kept\n",
 	}
-	r.Scenario("typed-wrapper-over-raw-paragraph", map[string]interface{}{"documents": len(wdocs), "members": "Homepage Section Bugs", "note": "read, encode the struct, read: same fields in the same order with the same values"}, len(wdocs), func(i int, st *mc.Stats) bool {
+	// a typed member whose value has every shape the reader produces (indented first line, first line on the line after the
+	// key, empty lines at the start / inside / at the end, tabs), between fields the struct does not know
+	for _, val := range []string{
+		"\n   * first item\n   * second item\n .\n .\n", " one\n .\n two\n", "\n .\n after an empty line\n", " \t tabbed first\n\tcont\n",
+		"\n\tonly a tab line\n", " x\n .\n", " x\n .\n .\n .\n", "   three blanks first\n", " a\n  b\n   c\n", "\n .\n", " trailing blanks   \n", " v\n \t.\n w\n",
+	} {
+		wdocs = append(wdocs, "Package: x\nHomepage:"+val+"X-Other: z\n", "Bugs:"+val+"Package: x\n", "Package: x\nsection: lower\nSection:"+val)
+	}
+	r.Scenario("typed-wrapper-over-raw-paragraph", map[string]interface{}{"documents": len(wdocs), "members": "Homepage Section Bugs", "note": "read, encode the struct, read: same fields in the same order with the same values (up to one trailing newline), no blank line inside the written paragraph"}, len(wdocs), func(i int, st *mc.Stats) bool {
 		st.Evals++
 		st.Traces++
 		st.Nontrivial++
-		in := In{Names: []string{"document"}, Values: []string{wdocs[i]}}
-		orig, err := readAll(wdocs[i])
-		if err != nil || len(orig) != 1 {
-			st.Class("reader-error")
-			return true
+		vs, cls := checkWrapped("typed-wrapper-over-raw-paragraph", wdocs[i])
+		for _, v := range vs {
+			st.Violate(v)
 		}
-		var w wrapped
-		var out bytes.Buffer
-		var e2 error
-		if p, msg := mc.Guard(func() {
-			if e2 = control.Unmarshal(&w, strings.NewReader(wdocs[i])); e2 == nil {
-				e2 = control.Marshal(&out, &w)
-			}
-		}); p || e2 != nil {
-			st.Violate(mc.V("typed-wrapper-over-raw-paragraph", "write-succeeds", in, "decode and encode succeed", fmt.Sprint(msg, e2)))
-			return true
-		}
-		back, err := readAll(out.String())
-		if err != nil || len(back) != 1 {
-			st.Violate(mc.V("typed-wrapper-over-raw-paragraph", "written-form-reads-back", in, "one paragraph", fmt.Sprintf("%q: %v", out.String(), err)))
-			return true
-		}
-		if a, b := gen.CanonRef([]gen.RefPara{{Order: orig[0].Order, Values: orig[0].Values}}), gen.CanonRef([]gen.RefPara{{Order: back[0].Order, Values: back[0].Values}}); a != b {
-			st.Violate(mc.V("typed-wrapper-over-raw-paragraph", "same-fields-same-order", in, a, b))
-			st.Class("changed")
-		} else {
-			st.Class("identity")
-		}
+		st.Class(cls)
 		return true
 	})
 
@@ -478,6 +483,15 @@ func Run(r *mc.Run) {
 			for _, c := range reps {
 				seqs = append(seqs, EncIn{Paras: []In{a, b, c}}, EncIn{Paras: []In{a, b, c}, Slice: true})
 			}
+		}
+	}
+	// a call the encoder refuses (a value it cannot encode) before, between and after the successful ones
+	for _, a := range reps {
+		for _, b := range reps {
+			for _, rf := range [][]int{{0}, {1}, {2}, {0, 1}, {1, 1}, {0, 1, 2}} {
+				seqs = append(seqs, EncIn{Paras: []In{a, b}, Refused: rf})
+			}
+			seqs = append(seqs, EncIn{Paras: []In{a, b, a}, Refused: []int{1}}, EncIn{Paras: []In{a, b, a}, Refused: []int{2}}, EncIn{Paras: []In{a, b, a}, Refused: []int{1, 2}})
 		}
 	}
 	// every way of splitting 2..4 paragraphs into consecutive Encode calls, each call a struct or a slice
@@ -564,7 +578,72 @@ func Run(r *mc.Run) {
 	})
 }
 
+// wrapped embeds the raw paragraph next to typed members.
+type wrapped struct {
+	control.Paragraph
+	Homepage string
+	Section  string
+	Bugs     string `control:"Bugs"`
+}
+
+// checkWrapped: read doc, decode it into the struct, encode the struct, read again.
+func checkWrapped(scen, doc string) ([]*mc.Violation, string) {
+	in := In{Names: []string{"document"}, Values: []string{doc}}
+	orig, err := readAll(doc)
+	if err != nil || len(orig) != 1 {
+		return nil, "reader-error"
+	}
+	var w wrapped
+	var out bytes.Buffer
+	var e2 error
+	if p, msg := mc.Guard(func() {
+		if e2 = control.Unmarshal(&w, strings.NewReader(doc)); e2 == nil {
+			e2 = control.Marshal(&out, &w)
+		}
+	}); p || e2 != nil {
+		return []*mc.Violation{mc.V(scen, "write-succeeds", in, "decode and encode succeed", fmt.Sprint(msg, e2))}, "changed"
+	}
+	for _, line := range strings.Split(strings.TrimSuffix(out.String(), "\n"), "\n") {
+		if strings.TrimSpace(line) == "" {
+			return []*mc.Violation{mc.V(scen, "no-blank-line-inside-paragraph", in, "no empty or whitespace-only line inside the written paragraph", fmt.Sprintf("%q", out.String()))}, "changed"
+		}
+	}
+	back, err := readAll(out.String())
+	if err != nil || len(back) != 1 {
+		return []*mc.Violation{mc.V(scen, "written-form-reads-back", in, "one paragraph", fmt.Sprintf("%q: %v", out.String(), err))}, "changed"
+	}
+	// "values equal up to one trailing newline"
+	upTo := func(m map[string]string) map[string]string {
+		o := map[string]string{}
+		for k, v := range m {
+			o[k] = strings.TrimSuffix(v, "\n")
+		}
+		return o
+	}
+	if a, b := gen.CanonRef([]gen.RefPara{{Order: orig[0].Order, Values: upTo(orig[0].Values)}}), gen.CanonRef([]gen.RefPara{{Order: back[0].Order, Values: upTo(back[0].Values)}}); a != b {
+		clause, feats := "same-fields-same-order", []string(nil)
+		if strings.Join(orig[0].Order, "\x00") == strings.Join(back[0].Order, "\x00") {
+			clause = "same-logical-lines"
+		}
+		for _, k := range orig[0].Order {
+			if strings.HasPrefix(orig[0].Values[k], "\n") {
+				feats = []string{"value-begins-with-empty-line"} // not representable by the writer: known finding W3a
+			}
+		}
+		return []*mc.Violation{mc.V(scen, clause, in, a, b, feats...)}, "changed"
+	}
+	return nil, "identity"
+}
+
 func Replay(scenario string, raw json.RawMessage) []*mc.Violation {
+	if scenario == "typed-wrapper-over-raw-paragraph" {
+		var in In
+		if mc.UnmarshalInput(raw, &in) == nil && len(in.Values) == 1 {
+			vs, _ := checkWrapped(scenario, in.Values[0])
+			return vs
+		}
+		return nil
+	}
 	if scenario == "concurrent-calls" {
 		return sched.Replay(scenario, ConcurrentPrograms(), raw)
 	}
